@@ -276,6 +276,37 @@ def r3(F, rep):
                                 for w in prev)
         rep.add("C16-R3", "wrapped|#%d" % (i + 1), f.loc(c), "update_div_local() call #%d uses an index that was wrapped after it was moved" % (i + 1), ok,
                 detail="with periodic boundaries the neighbour across the boundary would be addressed outside the grid", func=f.q)
+    # a component that an inner loop advances is rewound once per iteration of the loop around it
+    def comp(node):
+        n0 = X.strip(node)
+        if n0["k"] == "CXXOperatorCallExpr" and n0.get("op") == "[]" and len(X.call_args(n0)) == 2:
+            b, i = X.call_args(n0)
+            v = C._lit(i)
+            if X.strip(b)["k"] == "DeclRefExpr" and v is not None:
+                return (X.strip(b).get("d"), int(v))
+        return None
+
+    def loop_of(node):
+        for a in f.ancestors(node):
+            if a["k"] == "ForStmt":
+                return a
+        return None
+    from .rules_c10 import lvalue_writes
+    writes = [(w, comp(t)) for w, t in lvalue_writes(f) if comp(t) is not None]
+    for w, c in writes:
+        if not (w["k"] == "UnaryOperator" and w.get("op") in ("++", "post++")):
+            continue
+        L = loop_of(w)
+        if L is None:
+            continue
+        P = loop_of(L)
+        if P is None:
+            continue
+        resets = [w2 for w2, c2 in writes if c2 == c and w2["k"] in ("BinaryOperator", "CXXOperatorCallExpr") and w2.get("op") == "=" and loop_of(w2) is P]
+        ok = any(f.cfg.can_reach(r, w) for r in resets)
+        rep.add("C16-R3", "rewind|ix[%d]" % c[1], f.loc(resets[0]) if resets else f.loc(L), "component %d of the index is advanced by an inner loop and %s" % (
+            c[1], "set back at every iteration of the loop around it" if ok else "NOT set back in the loop directly around it"), ok,
+            detail="from the second pass on the inner loop starts two cells further: half of the 2^d neighbours keep a stale divergence", func=f.q)
     if len(calls) < 2:
         raise AnalysisBroken("update_div_neighbors: only %d update_div_local calls found" % len(calls))
 
